@@ -1151,6 +1151,15 @@ class PSBTIn:
                 raise ValueError("input refers to an output index that does not exist")
         if self.prev_out:
             # witness input
+            if self.prev_tx:
+                utxo = self.prev_tx.tx_outs[self.tx_in.prev_index]
+                if (
+                    utxo.amount != self.prev_out.amount
+                    or utxo.script_pubkey != self.prev_out.script_pubkey
+                ):
+                    raise ValueError(
+                        "witness UTXO does not match the previous transaction's output"
+                    )
             if not (
                 script_pubkey.is_p2sh()
                 or script_pubkey.is_p2wsh()
